@@ -52,7 +52,7 @@ RULE = (
     "configs = kind{unary,producer,exchange} x prefix{'',/vgi,/a/b (+/health,/v1.0 T)} x PKCE{off,on} x "
     "sticky{off,on} x health endpoint{on,off} x rejection{ValueError (+PermissionError, AuthFailure T)}; per config: "
     "every request the real client emits for 10 colliding method names (+__describe__, upload-URL, session "
-    "DELETE/resume) x verbs{GET,HEAD,POST,PUT,DELETE,OPTIONS,PATCH (+TRACE,CONNECT T)}, every name x "
+    "DELETE/resume) x verbs{GET,HEAD,POST,PUT,DELETE,OPTIONS,PATCH (+TRACE T)}, every name x "
     "suffix{'',/init,/exchange,/,/x} x {POST,GET}, every framework/near-miss path x verbs x Accept{none,text/html (quick: text/html on GET/POST only)}; "
     "one evaluation = one HTTP request against the rejecting app; non-trivial = the authenticate callback ran "
     "and rejected it (class = kind, route class, verb, live?)"
@@ -70,7 +70,7 @@ LEVEL_NOTE = (
 ASSUMPTIONS = [
     "prefixes under /.well-known/ are excluded (the statement itself exempts that subtree)",
     "with PKCE active the whole {prefix}/_oauth/ subtree counts as 'OAuth browser-flow endpoints' (method names cannot start with '_')",
-    "HTTP verbs outside the 9 standard ones are rejected by the WSGI server/Falcon before middleware",
+    "CONNECT (refused by the wsgiref validator used by falcon.testing) and non-standard verbs are not enumerated",
 ]
 
 NAMES = ["health", "healthz", "health_check", "healthcheck", "describe", "oauth", "session", "upload_url", "introspect", "x"]
@@ -327,7 +327,7 @@ def rclass(cfg: dict[str, Any], path: str) -> str:
 def requests_for(ctx: Ctx, cfg: dict[str, Any], recorded: list[dict[str, Any]], token: str | None) -> Any:
     """Phase-2 request list: dicts verb/path/body/headers/live/src."""
     P = cfg["prefix"]
-    verbs = ["POST", "GET", "HEAD", "PUT", "DELETE", "OPTIONS", "PATCH"] + (["TRACE", "CONNECT"] if ctx.thorough else [])
+    verbs = ["POST", "GET", "HEAD", "PUT", "DELETE", "OPTIONS", "PATCH"] + (["TRACE"] if ctx.thorough else [])
     seen: set[Any] = set()
     generic = next((r for r in recorded if r["verb"] == "POST" and r["live"]), None)
     gbody = generic["body"] if generic else b""
